@@ -133,6 +133,10 @@ func splitIntoChunks(txt string, numberOfBatches int) []string {
 		for nextPointer < len(txt) && !utf8.RuneStart(txt[nextPointer]) {
 			nextPointer++
 		}
+		// Don’t separate the two bytes of a CRLF line ending.
+		if nextPointer > 0 && nextPointer < len(txt) && txt[nextPointer-1] == '\r' && txt[nextPointer] == '\n' {
+			nextPointer++
+		}
 		if nextPointer > len(txt) {
 			batches[i] = txt[pointer:]
 			break
